@@ -266,4 +266,187 @@ theorem dispatch_deposit {L O tx f} (h : dispatch L O tx ttDeposit f = .ok ()) :
   simpa [dispatch, ttMint, ttScript, ttDeposit, Facts.Gen.common_TransactionTypeMint, Facts.Gen.common_TransactionTypeScript, Facts.Gen.common_TransactionTypeDeposit] using h
 
 
+theorem pan_eq_panic {α} {s s' : Site} : (pan s : M α) = .error (.panic s') ↔ s = s' := by
+  simp [pan]
+
+theorem scriptValidate_np {sc n s} : scriptValidate sc n ≠ .error (.panic s) := by
+  simp [scriptValidate]
+
+theorem validateUTXO_np {i u tx tt off s} : validateUTXO i u tx tt off ≠ .error (.panic s) := by
+  intro h
+  unfold validateUTXO at h
+  split at h
+  · split at h
+    · simp only [bind_panic, guardRej_not_panic, scriptValidate_np, pure_ne_panic, false_or, and_false, exists_false] at h
+    · split at h
+      · simp at h
+      · simp only [bind_panic, guardRej_not_panic, scriptValidate_np, pure_ne_panic, false_or, and_false, exists_false] at h
+  · split at h
+    · split at h <;> simp at h
+    · split at h
+      · split at h <;> simp at h
+      · simp at h
+
+theorem sigPresence_np {tx tt s} : sigPresence tx tt ≠ .error (.panic s) := by
+  unfold sigPresence; split <;> simp
+
+theorem validateReferences_np {L tx s} : validateReferences L tx ≠ .error (.panic s) := by
+  intro h
+  unfold validateReferences at h
+  simp only [bind_panic, guardRej_not_panic, false_or, and_false, exists_false] at h
+
+theorem keysLoop_np {O s} : ∀ (ks g : List Id), keysLoop O ks g ≠ .error (.panic s) := by
+  intro ks
+  induction ks with
+  | nil => intro g; simp [keysLoop]
+  | cons k ks ih =>
+    intro g h
+    unfold keysLoop at h
+    split at h
+    · simp at h
+    · split at h
+      · simp at h
+      · exact ih _ h
+
+theorem outputsLoop_np {O s} : ∀ (outs : List Output) (sum : Nat) (g : List Id),
+    outputsLoop O outs sum g ≠ .error (.panic s) := by
+  intro outs
+  induction outs with
+  | nil => intro sum g; simp [outputsLoop]
+  | cons o os ih =>
+    intro sum g h
+    unfold outputsLoop at h
+    simp only [bind_panic, guardRej_not_panic, keysLoop_np, false_or, guardRej_ok] at h
+    obtain ⟨_, _, _, _, gh, _, _, _, h⟩ := h
+    split at h
+    · simp at h
+    · exact ih _ _ h
+
+theorem validateOutputs_np {L O tx i s} : validateOutputs L O tx i ≠ .error (.panic s) := by
+  intro h
+  unfold validateOutputs at h
+  simp only [bind_panic, outputsLoop_np, guardRej_not_panic, pure_ne_panic, false_or, and_false, exists_false] at h
+
+
+theorem count_some {x : Nat} (h1 : priceStep ≤ x) (h2 : x < priceStep * (extraCapacity / extraStep)) :
+    ∃ c, Amount.count x priceStep = some c := by
+  unfold Amount.count
+  have hs : priceStep = 10000 := rfl
+  have hc : extraCapacity / extraStep = 4096 := by decide
+  rw [hc, hs] at h2
+  rw [hs] at h1 ⊢
+  have hq : x / 10000 < 2 ^ 64 := by
+    have : x / 10000 < 4096 := by omega
+    have : (4096 : Nat) < 2 ^ 64 := by decide
+    omega
+  rw [if_neg (by omega), if_neg (by omega)]
+  exact ⟨_, rfl⟩
+
+theorem getExtraLimit_np {tx s} (hv : tx.version = Facts.Gen.common_TxVersionHashSignature) :
+    getExtraLimit tx ≠ .error (.panic s) := by
+  intro h
+  unfold getExtraLimit at h
+  rw [if_neg (by simp [hv])] at h
+  split at h
+  · simp at h
+  · split at h
+    · simp at h
+    · split at h
+      · simp at h
+      · split at h
+        · simp at h
+        · split at h
+          · simp at h
+          · split at h
+            · simp at h
+            · rename_i out _ _ _ h1 h2
+              obtain ⟨c, hc⟩ := count_some (x := out.amount) (by omega) (by omega)
+              rw [hc] at h
+              simp only at h
+              split at h <;> simp at h
+
+theorem structural_np {tx s} (hp : tx.payloadSize ≤ txMaxSize) : structural tx ≠ .error (.panic s) := by
+  intro h
+  unfold structural at h
+  simp only [bind_panic, guardRej_not_panic, false_or, guardRej_ok] at h
+  obtain ⟨_, hv, _, _, _, _, _, _, _, _, h⟩ := h
+  have hv' : tx.version = Facts.Gen.common_TxVersionHashSignature := by simpa using hv
+  rcases h with h | ⟨_, _, _, _, h⟩
+  · exact getExtraLimit_np hv' h
+  · rcases h with h | ⟨_, _, h⟩
+    · have := guardPan_panic h
+      simp at this
+      omega
+    · simp at h
+
+
+theorem utxo_mem {L : Ledger} {h i u} (hu : L.utxo h i = some u) : u ∈ L.utxos ∧ u.hash = h ∧ u.index = i := by
+  unfold Ledger.utxo at hu
+  have hm := List.mem_of_find?_eq_some hu
+  have hp := List.find?_some hu
+  simp at hp
+  exact ⟨hm, hp.1, hp.2⟩
+
+theorem tx_mem {L : Ledger} {h t} (ht : L.tx h = some t) : t ∈ L.txs ∧ t.hash = h := by
+  unfold Ledger.tx at ht
+  have hm := List.mem_of_find?_eq_some ht
+  have hp := List.find?_some ht
+  simp at hp
+  exact ⟨hm, hp⟩
+
+theorem add_none {x y : Nat} (h : Amount.add x y = none) : y = 0 := by
+  unfold Amount.add at h
+  split at h <;> simp_all
+
+theorem loop_np {L : Ledger} {tx tt fork s} (hpos : ∀ u ∈ L.utxos, 0 < u.amount) :
+    ∀ (ins : List Input) (k : Nat) (a : InAcc), inputsLoop L tx tt fork k ins a ≠ .error (.panic s) := by
+  intro ins
+  induction ins with
+  | nil => intro k a; simp [inputsLoop]
+  | cons inp rest ih =>
+    intro k a h
+    unfold inputsLoop at h
+    split at h
+    · simp at h
+    · split at h
+      · simp at h
+      · split at h
+        · simp at h
+        · split at h
+          · simp at h
+          · split at h
+            · simp at h
+            · rename_i u hu
+              split at h
+              · simp at h
+              · split at h
+                · simp at h
+                · simp only [bind_panic, validateUTXO_np, false_or] at h
+                  obtain ⟨ks, _, h⟩ := h
+                  split at h
+                  · rename_i hnone
+                    have := add_none hnone
+                    have := hpos u (utxo_mem hu).1
+                    omega
+                  · exact ih _ _ h
+
+theorem validateInputs_np {L : Ledger} {O tx tt fork s} (hpos : ∀ u ∈ L.utxos, 0 < u.amount) :
+    validateInputs L O tx tt fork ≠ .error (.panic s) := by
+  intro h
+  unfold validateInputs at h
+  simp only [bind_panic, loop_np hpos, false_or] at h
+  obtain ⟨r, _, h⟩ := h
+  cases r with
+  | early fl amt => simp at h
+  | full a =>
+    simp only at h
+    split at h
+    · simp at h
+    · split at h
+      · simp at h
+      · split at h
+        · split at h <;> simp at h
+        · split at h <;> simp at h
+
+
 end Mixin.Validate
